@@ -475,4 +475,60 @@ def entryDiff : List EntryStep → List EntryStep → Option String
     if a == b then entryDiff as bs
     else some s!"{a.file} {a.fn}: call {a.callee} under {a.conds} after the exits {a.guards} where {b.callee} under {b.conds} after {b.guards} was expected"
 
+/-! ## sorts over a slice collected in map order (round 5)
+
+`Generated.C20Sorts.sorts` says, for every site whose pattern is `sort`, what the sort compares. A
+comparator of shape `whole` orders the collected elements themselves (strings / integers): two elements
+that tie are equal, `Pattern_sort_whole_perm` applies without any argument by hand. Every other
+comparator (`derived`: the elements go through a function, a method, a field, a conversion) can tie on
+two *different* elements, and then the map order reaches the result (`Pattern_sort_tie_depends`) — unless
+the sort key is injective on what the loop collects (`Pattern_sort_key_perm_iff`). That argument is made
+by hand, below, **for the comparator text it was made for**: a comparator that changes has to be argued
+again. -/
+
+structure SortArg where
+  file : String
+  fn : String
+  expr : String
+  ord : Nat
+  target : String
+  cmpText : String
+  why : String
+
+def sortArgued : List SortArg := [
+  ⟨"node/class.go", "ClassStatement.GetMethods", "c.Methods", 0, "methods", "methods[i].GetName() < methods[j].GetName()",
+    "a method is stored under its own name; a trait alias stores the *same* method object under a second key: two entries that tie are one object"⟩,
+  ⟨"runtime/reflect_class.go", "ReflectClass.GetPropertyList", "rc.properties", 0, "properties", "properties[i].GetName() < properties[j].GetName()",
+    "rc.properties[name] holds the property of that name: GetName is the map key, injective"⟩,
+  ⟨"runtime/reflect_class.go", "ReflectClass.GetMethods", "rc.methods", 0, "methods", "methods[i].GetName() < methods[j].GetName()",
+    "rc.methods[method.Name] = wrapper of that method: GetName is the map key"⟩,
+  ⟨"runtime/vm.go", "VM.AllFuncs", "vm.funcMap", 0, "funcs", "funcs[i].GetName() < funcs[j].GetName()",
+    "vm.funcMap[f.GetName()] = f is the only store"⟩,
+  ⟨"runtime/vm.go", "VM.AllClasses", "vm.classMap", 0, "classes", "classes[i].GetName() < classes[j].GetName()",
+    "vm.classMap[c.GetName()] = c is the only store"⟩,
+  ⟨"runtime/vm_temp.go", "TempVM.AddedClasses", "vm.addedClasses", 0, "out", "out[i].GetName() < out[j].GetName()",
+    "vm.addedClasses[c.GetName()] = c is the only store"⟩,
+  ⟨"std/php/core/strtr.go", "StrtrFunction.Call", "pairs", 0, "keys", "len(keys[i]) > len(keys[j])",
+    "NOT injective: keys of equal length tie and reach strings.NewReplacer in map order. Argued harmless: the replacer prefers, at each position of the subject, the earliest argument among the keys that match there; keys matching at one position are prefixes of one another, hence of different length, hence never tied. Probed on every run by the strtr blocks of the generator and the reorder stream (equal-length keys)"⟩
+]
+
+/-- sorts listed as known findings (`props/C20.json`, status `known`): none -/
+def KnownSorts : List (String × String × String × Nat) := []
+
+def sortOK (argued : List SortArg) (known : List (String × String × String × Nat)) (s : SortFact) : Bool :=
+  s.cmp == .whole ||
+  argued.any (fun e => e.file == s.file && e.fn == s.fn && e.expr == s.expr && e.ord == s.ord &&
+    e.target == s.target && e.cmpText == s.cmpText) ||
+  known.contains (s.file, s.fn, s.expr, s.ord)
+
+/-- the sorts over map-ordered slices whose comparator can tie on different elements and for which no
+argument (for today's comparator text) is listed -/
+def tyingSorts (argued : List SortArg) (known : List (String × String × String × Nat)) (facts : List SortFact) : List SortFact :=
+  facts.filter (fun s => !sortOK argued known s)
+
+/-- sites claimed for the pattern `sort` of which the translator reports no sort at all -/
+def sortSitesWithoutFact (sites : List RangeSite) (facts : List SortFact) : List RangeSite :=
+  sites.filter (fun s => s.summary == .appendSorted &&
+    !facts.any (fun f => f.file == s.file && f.fn == s.fn && f.expr == s.expr && f.ord == s.ord))
+
 end C20Sites
